@@ -45,6 +45,9 @@ DIVERSE = '''
 ANGLES = '''
      Make the three changes come from three different angles: (A) an interaction - an edit in one function that is harmless on its own but breaks an assumption another function, class or caller relies on; (B) a rarely exercised corner - a less used data class, mode, option, helper or entry point named in the anchors (or reachable from them) that the tests never touch; (C) a failure path - what happens after an exception, an interrupted process, a partial write or a retry.'''
 
+ANGLES2 = '''
+     Make the three changes come from three different angles: (D) a library call used slightly wrongly - a changed keyword argument, flag, default, mode or an "equivalent" function of the standard library / numpy / pandas / networkx / filelock / json that behaves differently in some case; (E) a confusion of kinds - str vs Path, list vs one-shot iterator, None vs empty container vs missing key, class vs instance, a name with vs without namespace / group / extension, bytes vs text; (F) a boundary - code that is right for the common case and wrong for the empty, single-element, duplicate, equal-named, zero, first or last case.'''
+
 AVOID = '''
      At most ONE of the three changes may consist of adding a cache / memo / stored flag; the others must be of a different kind (conditions, ordering of statements, arguments passed, names / keys / paths computed, error handling, iteration, copying vs aliasing, locking, what is written where).'''
 
@@ -78,7 +81,7 @@ def main():
     kind, ids, wt = sys.argv[1], sys.argv[2].split(','), sys.argv[3]
     if kind == 'seeded':
         p = PROPS[ids[0]]
-        print(SEEDED.format(wt=wt, prop=json.dumps(p, indent=1), pid=ids[0], extra=(AVOID if '--avoid-caches' in sys.argv else '') + (DIVERSE if '--diverse' in sys.argv else '') + (ANGLES if '--angles' in sys.argv else '')))
+        print(SEEDED.format(wt=wt, prop=json.dumps(p, indent=1), pid=ids[0], extra=(AVOID if '--avoid-caches' in sys.argv else '') + (DIVERSE if '--diverse' in sys.argv else '') + (ANGLES if '--angles' in sys.argv else '') + (ANGLES2 if '--angles2' in sys.argv else '')))
     else:
         recs = []
         for i in ids:
